@@ -279,9 +279,13 @@ pub(crate) fn block_me() {
     check_abort();
 }
 pub(crate) fn unblock(t: TaskId) {
-    ExecutionState::with(|s| {
-        if !s.get(t).finished() {
-            s.get_mut(t).unblock()
+    // `try_with`: destructors of simulator objects may run outside any execution
+    // (thread-local teardown after an aborted execution); then there is nobody to wake.
+    let _ = ExecutionState::try_with(|s| {
+        if let Some(task) = s.try_get(t) {
+            if !task.finished() {
+                s.get_mut(t).unblock()
+            }
         }
     });
 }
